@@ -166,7 +166,7 @@ fn check_packets(scn: &Scn, cuts0: &[usize], st: &mut RunStats) -> Result<(), Vi
     let mut owner: Vec<(usize, usize)> = vec![]; // (flow, segment index)
     let mut t = 0u64;
     let mut il = 0u64;
-    let mut push = |fi: usize, next: &mut Vec<usize>, trace: &mut Vec<Timed>, owner: &mut Vec<(usize, usize)>, t: &mut u64| {
+    let push = |fi: usize, next: &mut Vec<usize>, trace: &mut Vec<Timed>, owner: &mut Vec<(usize, usize)>, t: &mut u64| {
         let k = next[fi];
         if k < segs[fi].len() {
             let (a, b) = segs[fi][k];
